@@ -114,6 +114,34 @@ def handleSha1 (inp : Bytes) (obs : List String) : String :=
   let mObs := hexOf (Sha1.sha1 inp)
   verdict (unwords obs == mObs) [] mObs
 
+/-! ### stream `decq`: Parser::decode, verdict only (ok / err) — for inputs on which rendering and re-checking the whole
+     tree would be too slow (nesting over a thousand levels deep) -/
+def handleDecq (inp : Bytes) (obs : List String) : String :=
+  let mObs := match decode inp with | .ok _ => "ok" | .err => "err" | .panic => "panic"
+  let fails : List String :=
+    match obs, mObs with
+    | ["ok"], "err" => ["c08-accepts-noncanonical"]
+    | ["err"], "ok" => ["c08-rejects-canonical"]
+    | ["panic"], _ => ["c09-panic"]
+    | ["abort"], _ => ["c09-abort"]
+    | ["timeout"], _ => ["c09-timeout"]
+    | _, _ => []
+  verdict (unwords obs == mObs) fails mObs
+
+/-! ### stream `par`: the same document decoded and loaded on several threads at once must give, on every thread, what a
+     single call gives (the entry points are functions of their argument). The harness answers `same <verdict>` or `differs`. -/
+def handlePar (inp : Bytes) (obs : List String) : String :=
+  let v := match load Sha1.sha1 inp with | .ok _ => "ok" | .err => "err" | .panic => "panic"
+  let mObs := "same " ++ v
+  let fails : List String :=
+    match obs with
+    | "differs" :: _ => ["c08-not-a-function-of-the-input"]
+    | ["panic"] => ["c09-panic"]
+    | ["abort"] => ["c09-abort"]
+    | ["timeout"] => ["c09-timeout"]
+    | _ => []
+  verdict (unwords obs == mObs) fails mObs
+
 def answer (line : String) : String :=
   let ts := (line.splitOn " ").filter (· != "")
   let (req, obs) := splitBar ts
@@ -123,6 +151,12 @@ def answer (line : String) : String :=
     | none => "bad-request"
   | ["load", h] => match unhex h with
     | some inp => handleLoad inp obs
+    | none => "bad-request"
+  | ["decq", h] => match unhex h with
+    | some inp => handleDecq inp obs
+    | none => "bad-request"
+  | ["par", h] => match unhex h with
+    | some inp => handlePar inp obs
     | none => "bad-request"
   | ["hex", h] => match unhex h with
     | some inp => handleHex inp obs
